@@ -10,6 +10,8 @@ injected into `nauyaca.server.handler`'s namespace (`sim/store_tree.py`), agains
 Dimensions beyond request / tree / configuration: how the handler object is built (`via`: constructor, `ServerConfig(...)`,
 `ServerConfig.from_toml(file)` -> `get_upload_handler()`), lists that hold only blank entries, storage that takes only the
 first k bytes (`fsize`: the real kernel's short count under RLIMIT_FSIZE, besides the stand-in file object of `write`), and
+the smallest size limits (0 = closed / delete-only, 1), entries NEXT TO the target whose name is derived from the target's name
+(`neighbour`: ".NAME.upload", "NAME.part", "NAME~" ... as file, directory or link - they are not the target), and
 time (`timing`: the request completes `lead` seconds after the connection was made, a middleware chain in front of the
 handler answers after `mw` seconds, on a virtual clock; `stall`: the peer goes quiet past the request timeout).
 
@@ -533,7 +535,8 @@ def gen_path(rng: random.Random, ents) -> tuple[str, str]:
 def gen_request(rng: random.Random, ents, proto: bool):
     # (lists that hold nothing but blank entries - an unset "${TITAN_TOKEN}" of a deployment template, a revoked token blanked
     # out - are still lists: tokens ARE configured and no request can present one of them)
-    cfg = {"max": rng.choice([8, 8, 16, 100, 2000, 8, 16, 100, 2000, 20000]),
+    # (a limit of 0 is a legal configuration - a drop box that is closed, or open for deletions only: every non-empty upload is over it)
+    cfg = {"max": rng.choice([8, 8, 16, 100, 2000, 8, 16, 100, 2000, 20000, 0, 0, 1]),
            "types": rng.choice([None, None, None, None, None, None, [], ["text/plain"], ["text/plain"], ["text/gemini", "text/plain"], ["image/png"],
                                 ["image/png"], [""], [" "], ["", "text/plain"]]),
            "tokens": rng.choice([None, None, None, None, None, None, [], [TOKEN], [TOKEN], [TOKEN], ["", TOKEN], ["t1", "t2"], ["t1", "t2"],
@@ -629,6 +632,36 @@ def gen_fault(rng: random.Random, size: int):
     return ["mkdir", rng.choice([0, 0, 1, 2])]
 
 
+# names a program might give to a working copy / a leftover of the file NAME it is about to store (editors, download managers,
+# an upload handler that derives its temporary name from the target): they are other people's entries, not the target
+NEIGHBOUR_NAMES = [".{n}.upload", ".{n}.upload", ".{n}.upload", ".{n}.tmp", "{n}.tmp", "{n}.upload", "{n}.part", "{n}~", ".{n}.swp", ".{n}", "{n}.new",
+                   ".{n}.$PID.upload", "{n}.bak", ".#{n}", "#{n}#", ".{n}.lock"]
+
+
+def neighbour_entries(rng: random.Random, ents, line: str):
+    """tree entries that sit NEXT TO what the request line names and carry a name derived from its name (appended to the
+    tree description, so an entry that cannot exist - missing parent, name taken - is simply skipped by the builder)"""
+    path = line[len("titan://h"):].split(";", 1)[0]
+    segs = [s for s in path.split("/") if s not in ("", ".")]
+    if not segs or ".." in segs or any(c in ":;|%\\?" or not c.isprintable() for s in segs for c in s):
+        return []
+    name = rng.choice(NEIGHBOUR_NAMES).replace("{n}", segs[-1])
+    if len(name.encode("utf-8")) > 240:
+        return []
+    parent = "/".join([UP] + segs[:-1])
+    if T.sim_build(ents).get(parent) != ["d"]:
+        return []          # (a directory the request would create is empty; one behind a link is covered by the fixed cases)
+    p = parent + "/" + name
+    k = rng.random()
+    if k < 0.4:
+        return [["f", p, hexs(b"PRECIOUS")]]
+    if k < 0.5:
+        return [["d", p]]
+    if k < 0.6:
+        return [["d", p], ["f", p + "/kept", hexs(b"PRECIOUS")]]
+    return [["l", p, rng.choice(["/out/secret", "/out/secret", "/out/via-temp-link", "nonexistent", "/uploads-evil/e", "a", "/out"])]]
+
+
 VIAS = ["ctor", "ctor", "config", "toml"]
 LEADS = [0, 0, 10, 25, 29]                                     # seconds; the request timeout is 30 s from connection_made
 CHAIN_DELAYS = [0, 0.25, 4.75, 19.75, 28.5, 31.25, 45, 100]    # seconds; never ending on the deadline itself
@@ -697,6 +730,21 @@ def fixed_cases(mode: str):
         for line in ("titan://h/a;size=7", "titan://h/sub/n;size=7", "titan://h/" + TMPNAME + ";size=7"):
             yield {"tree": FIXED_TREE + extra, "cfg": OPEN, "line": line, "content": c, "fault": None, "cls": "tempcollision+fixed"}
     yield {"tree": FIXED_TREE + col[1], "cfg": OPEN, "line": "titan://h/nd/x/f;size=7", "content": c, "fault": ["write", 2], "cls": "tempcollision+fixed"}
+    # ... and entries whose name is DERIVED from the name of the target (what an interrupted upload, an editor or a download manager
+    # leaves next to a file): regular file, directory, link to outside / to nothing / to a sibling - next to an existing target, next to
+    # a new one, next to one reached through a directory link; also with the storing failing part-way
+    for pat in (".{n}.upload", ".{n}.tmp", "{n}.part", "{n}~"):
+        for tdir, line in (("uploads", "titan://h/a;size=7"), ("uploads", "titan://h/fresh;size=7"), ("uploads/sub", "titan://h/lin/f;size=7")):
+            nm = tdir + "/" + pat.replace("{n}", line[len("titan://h"):].split(";")[0].rsplit("/", 1)[-1])
+            for extra in ([["f", nm, hexs(b"PRECIOUS")]], [["l", nm, "/out/secret"]], [["l", nm, "/out/via-temp-link"]], [["d", nm], ["f", nm + "/kept", hexs(b"PRECIOUS")]]):
+                for fault in (None, ["write", 3]) if pat.startswith(".{n}.") else (None,):
+                    yield {"tree": FIXED_TREE + extra, "cfg": OPEN, "line": line, "content": c, "fault": fault, "cls": "neighbour+fixed"}
+    # the size limit at its smallest values, for every way of building the handler: sizes at and just above the limit, and a deletion
+    for mx in (0, 1):
+        for via in ("ctor", "config", "toml"):
+            for sz in (mx, mx + 1, mx + 6):
+                for line in (f"titan://h/a;size={sz}", f"titan://h/nd/new;size={sz}"):
+                    yield {"tree": FIXED_TREE, "cfg": dict(OPEN, max=mx), "line": line, "content": hexs(b"NEWDATA!"[:sz]), "fault": None, "cls": "existing+smallmax+fixed", "via": via}
 
 
 class Direct(UploadFamily):
@@ -715,6 +763,10 @@ class Direct(UploadFamily):
             for _ in range(6):
                 cfg, line, body, eff, cls = gen_request(rng, ents, False)
                 case = {"tree": ents, "cfg": cfg, "line": line, "content": hexs(body), "fault": gen_fault(rng, eff), "cls": cls, "via": rng.choice(VIAS)}
+                if rng.random() < 0.15:
+                    nb = neighbour_entries(rng, ents, line)
+                    if nb:
+                        case["tree"], case["cls"] = ents + nb, cls + "+neighbour"
                 yield case
                 count += 1
 
@@ -759,6 +811,10 @@ class Proto(UploadFamily):
                 cuts = sorted(rng.sample(range(1, max(total, 2)), k=min(rng.choice([0, 0, 1, 2, 4]), max(total - 1, 0))))
                 case = {"tree": ents, "cfg": cfg, "line": line, "content": hexs(buf), "fault": gen_fault(rng, eff), "cls": cls + "+" + cls2, "cuts": cuts,
                         "via": rng.choice(VIAS)}
+                if rng.random() < 0.15:
+                    nb = neighbour_entries(rng, ents, line)
+                    if nb:
+                        case["tree"], case["cls"] = ents + nb, case["cls"] + "+neighbour"
                 late = [k for k, c in enumerate(cuts) if c >= len(line.encode("utf-8")) + 2]
                 if late and rng.random() < 0.5:
                     # the peer stalls past the request timeout at one of the cuts inside the content
